@@ -95,16 +95,17 @@ theorem C17_span_pi (b : Builder) (target : StrSpan) (c : StrSpan) :
 /-- Every element child and every text child of the document node has its span recorded
     (`FwdSpans m i ks`: the children `ks`, numbered from `i`, have their `ElementStart` / `Text` keys). -/
 theorem C17_total_top {m : Mode} {len : Nat} {env : Env} {ts : List Token} {lexErr : Option Nat} {p : Parsed}
-    (hshape : TokenShape len ts lexErr) (hclose : NoStrayClose 0 ts) (h : build m len env ts lexErr = .ok p) :
+    (hshape : TokenShape len ts lexErr) (h : build m len env ts lexErr = .ok p) :
     FwdSpans p.spans 0 p.tree.kids :=
-  build_total_top hshape.tags hclose h
+  build_total_top hshape.tags h
 
-/-- Non-vacuity on `<p:a xmlns:p='u' b=''><!--c--><![CDATA[t]]></p:a>`: the spans of the element
-    name (`p:a`), the end tag, the attribute `b`, the comment body and the CDATA content. -/
+/-- Non-vacuity on `<p:a xmlns:p='u' b='x&#10;y'><!--c-->t&lt;<![CDATA[c]]></p:a>`: the spans of the
+    element name (`p:a`), the end tag, the attribute `b` (name, and value between the quotes), the
+    comment body, and the text run from the start of `t&lt;` to the end of the CDATA content. -/
 example : let r := build .document goodDocLen Env.fresh goodDoc none
-    r.spanOf ⟨[0], .elementStart⟩ = some ⟨1, 4⟩ ∧ r.spanOf ⟨[0], .elementEnd⟩ = some ⟨43, 49⟩ ∧
-    r.spanOf ⟨[0], .attributeName 3⟩ = some ⟨17, 18⟩ ∧ r.spanOf ⟨[0], .attributeValue 3⟩ = some ⟨20, 20⟩ ∧
-    r.spanOf ⟨[0, 2], .comment⟩ = some ⟨26, 27⟩ ∧ r.spanOf ⟨[0, 3], .text⟩ = some ⟨39, 40⟩ := by
+    r.spanOf ⟨[0], .elementStart⟩ = some ⟨1, 4⟩ ∧ r.spanOf ⟨[0], .elementEnd⟩ = some ⟨55, 61⟩ ∧
+    r.spanOf ⟨[0], .attributeName 3⟩ = some ⟨17, 18⟩ ∧ r.spanOf ⟨[0], .attributeValue 3⟩ = some ⟨20, 27⟩ ∧
+    r.spanOf ⟨[0, 2], .comment⟩ = some ⟨33, 34⟩ ∧ r.spanOf ⟨[0, 3], .text⟩ = some ⟨37, 52⟩ := by
   rw [build_eq_buildE]; decide +kernel
 
 end XotModel.Props
